@@ -82,6 +82,19 @@ gauge pos by f, k
 }
 `
 
+// a second fixed program whose expected result the harness computes itself
+// (not through a VM): it ends in `else { stop }`, so a line that takes that
+// path is followed by the end of the bytecode
+const c19Stopper = `counter with_x
+counter without_x
+/x/ {
+  with_x++
+} else {
+  without_x++
+  stop
+}
+`
+
 func runC19(c c19Case) *vstat.Failure {
 	vstat.Begin(c)
 	return vstat.Catch(func() *vstat.Failure { return runC19x(c) })
@@ -97,6 +110,8 @@ func runC19x(c c19Case) *vstat.Failure {
 	must(os.Mkdir(logDir, 0o755))
 	wname := "0w_" + tag + ".mtail"
 	must(os.WriteFile(filepath.Join(progDir, wname), []byte(c19Witness), 0o644))
+	sname := "0s_" + tag + ".mtail"
+	must(os.WriteFile(filepath.Join(progDir, sname), []byte(c19Stopper), 0o644))
 	pname := func(i int) string { return fmt.Sprintf("p%d_%s.mtail", i, tag) }
 	src := func(i int) string {
 		s := c.Progs[i].Source()
@@ -236,6 +251,33 @@ func runC19x(c c19Case) *vstat.Failure {
 		}
 		last[s.file] = s.k
 	}
+	// 1b. the program ending in `else { stop }`: counts computed here, not by a VM
+	var wantX, wantNoX int64
+	for i := range exp {
+		for _, l := range exp[i] {
+			if strings.Contains(l, "x") {
+				wantX++
+			} else {
+				wantNoX++
+			}
+		}
+	}
+	for _, want := range []struct {
+		name string
+		v    int64
+	}{{"with_x", wantX}, {"without_x", wantNoX}} {
+		m := store.FindMetricOrNil(want.name, sname)
+		if m == nil {
+			return vstat.Failf("metric-missing", "%s of the fixed program is not in the store", want.name)
+		}
+		d, err := m.GetDatum()
+		if err != nil {
+			return vstat.Failf("metric-missing", "%v", err)
+		}
+		if got := datum.GetInt(d); got != want.v {
+			return vstat.Failf("line-count", "the fixed program counted %s = %d, the files hold %d such lines (a line after one that ended in `stop` was not processed?)", want.name, got, want.v)
+		}
+	}
 	// 2. every program: final metrics = that program run over this interleaving
 	for i := range c.Progs {
 		obj, err := hx.Compile(pname(i), src(i))
@@ -327,6 +369,11 @@ func TestC19(t *testing.T) {
 				f.NoFinalNL = n > 0 && rapid.IntRange(0, 2).Draw(rt, "nonl") == 0
 				if f.NoFinalNL && f.Lines[len(f.Lines)-1] == "" {
 					f.Lines[len(f.Lines)-1] = "tail"
+				}
+				if f.NoFinalNL && rapid.IntRange(0, 3).Draw(rt, "wslast") == 0 {
+					// an unterminated last line of white space only is still a line
+					f.Lines[len(f.Lines)-1] = rapid.SampledFrom([]string{" ", "  ", "\t", " \t "}).Draw(rt, "ws")
+					st.Class("whitespace-only-unterminated-last-line")
 				}
 				if f.NoFinalNL {
 					unterminated = true
